@@ -4,6 +4,9 @@
 # that does NOT behave as expected (breaking variants must make their property's check exit 1,
 # benign variants must leave `check all` at exit 0), then a summary.
 set -u
+# every scratch copy compiles package jen under a path of its own, so the Go build cache grows by a few
+# MB per variant (135 GB over the whole project once filled the disk): trim it when it gets large
+gc=$(go env GOCACHE 2>/dev/null); if [ -n "$gc" ] && [ -d "$gc" ] && [ "$(du -sm "$gc" 2>/dev/null | cut -f1)" -gt 30000 ]; then go clean -cache; fi
 export GOFLAGS=-mod=mod GOPROXY=off GOSUMDB=off GOTOOLCHAIN=local
 what=${1:-all}
 one() {
